@@ -142,6 +142,12 @@ def corr_case(draw):
                        st.builds(lambda a, sgn: a * sgn, st.floats(0.05, 0.95), st.sampled_from([1.0, -1.0]))))
     if draw(st.integers(0, 29)) == 0:
         ds['ns'] = draw(st.integers(2049, 4500))      # more rows than any internal processing block (the generator is quadratic in the rows)
+    if draw(st.integers(0, 7)) == 0:
+        # a short, wide data set with (nearly) every column selected at once: as many sources as rows or more
+        ds = draw(dataset_spec(min_n=4, max_n=12, max_f=12, nonconst=True, long_ok=False))
+        ds['nf'] = draw(st.integers(max(2, ds['ns'] - 2), 12))
+        idx = draw(st.permutations(list(range(ds['nf']))))
+        return {'ds': ds, 'sel': {'t': draw(st.sampled_from(['list', 'array'])), 'idx': list(idx)}, 'r': r, 'np_seed': draw(st.integers(0, 2**32 - 1))}
     return {'ds': ds, 'sel': draw(selection(ds['nf'])), 'r': r, 'np_seed': draw(st.integers(0, 2**32 - 1))}
 
 
